@@ -51,7 +51,8 @@ hep::mc_result<T> gen_result(vf::Tape& t, bool allow_empty, T scale, std::size_t
     long double const rel = std::pow(10.0L, -lim<T>::k + t.unit() * (lim<T>::k + ((huge || calls > 100000000) ? 0 : 3)));
     T S = static_cast<T>(std::fabs(static_cast<long double>(E)) * rel);
     std::size_t const nz = 1 + t.range(0, calls - 1);
-    std::size_t const fin = t.range(0, nz);
+    // counters as a run produces them: a result that carries a non-zero estimate and variance saw at least one finite value
+    std::size_t const fin = std::max<std::size_t>(1, t.range(0, nz));
     hep::mc_result<T> r = hep::create_result<T>(calls, nz, fin, E, S);
     // construction, not rejection: widen the error until the value read back has a positive variance
     for (int i = 0; i != 12 && !(r.variance() > T() && std::isfinite(r.variance())); ++i)
